@@ -141,6 +141,8 @@ func (g *Generate) Parse() error {
 // This will throw an error because "val" matches E1 and E2.
 func validateParsableTraits(enumType string, traits TraitDescs) error {
 	parsableTraitResults := make(map[string]string)
+	// the types under which a value is already a key of its enum value in the Parse switch.
+	parsableTraitTypes := make(map[string][]types.Type)
 	for _, trait := range traits {
 		if trait.Parsable {
 			for i, instance := range trait.Traits {
@@ -151,11 +153,17 @@ func validateParsableTraits(enumType string, traits TraitDescs) error {
 								"found in %s and %s. parsableByTrait values must be unique within the enum.",
 							enumType, trait.Name, instance.value, parseTo, instance.OwningValue.Name)
 					}
-					// the same constant on the same enum value through another parsable trait:
-					// it is already a key of that value in the Parse switch.
-					trait.Traits[i].repeatsParseKey = true
+					// the same constant on the same enum value through another parsable trait of the
+					// same type: it is already a key of that value in the Parse switch. A constant of
+					// another type (e.g. Tint(0) next to 0) is a different key and stays.
+					for _, seen := range parsableTraitTypes[instance.value] {
+						if types.Identical(types.Default(seen), types.Default(trait.Type)) {
+							trait.Traits[i].repeatsParseKey = true
+						}
+					}
 				}
 				parsableTraitResults[instance.value] = instance.OwningValue.Name
+				parsableTraitTypes[instance.value] = append(parsableTraitTypes[instance.value], trait.Type)
 			}
 
 		}
